@@ -158,10 +158,20 @@ def run(ctx):
                 sh_here = any(f[0] == "or" or f in (("cmp", "Lt", sh_t, n_t), ("cmp", "Gt", n_t, sh_t)) for f in fs_)
                 if fit_here and sh_here:
                     continue
-            too_big = any(f[0] == "cmp" and ((f[1] == "Gt" and f[2] in prod and f[3] == ("len", secs)) or (f[1] == "Lt" and f[3] in prod and f[2] == ("len", secs))) for f in fs_)
-            far = (("cmp", "Ne", sh_t, ("c", 0)) in fs_ or G.entails(fs_, ("cmp", "Ge", sh_t, ("c", 1))) is not None) and \
-                (("cmp", "Ge", sh_t, n_t) in fs_ or ("cmp", "Le", n_t, sh_t) in fs_ or G.entails(fs_, ("cmp", "Ge", sh_t, n_t)) is not None)
-            if not (too_big or far):
+            from .. import exact as EX
+
+            def allowed_(fx_):
+                fx_ = [N(f) if not (isinstance(f, tuple) and f and f[0] == "or") else f for f in fx_]
+                fx_ = [f for f in fx_ if f[0] != "or"]
+                too_big = any(f[0] == "cmp" and ((f[1] == "Gt" and f[2] in prod and f[3] == ("len", secs)) or (f[1] == "Lt" and f[3] in prod and f[2] == ("len", secs))) for f in fx_)
+                far = (("cmp", "Ne", sh_t, ("c", 0)) in fx_ or G.entails(fx_, ("cmp", "Ge", sh_t, ("c", 1))) is not None) and \
+                    (("cmp", "Ge", sh_t, n_t) in fx_ or ("cmp", "Le", n_t, sh_t) in fx_ or G.entails(fx_, ("cmp", "Ge", sh_t, n_t)) is not None)
+                return too_big or far
+            v_ = EX.judge(fs_, allowed_)
+            if v_ == "undecided":
+                ctx.note("E1x: a panic edge of sections() is reached under the discriminant of a joined value only - not decided")
+                continue
+            if v_ == "bad":
                 bad_.append("%s %s under %s" % (s_.kind, s_.what, [G.show(f)[:70] for f in fs_][:4]))
     ctx.check(not bad_, "E1x", "exact-rejection", "sections() diverges only when the n entries do not fit (n * entry_size > len) or the string-table index is "
               "neither 0 nor one of them (shndx != 0 && shndx >= n)", A.site(), how="%d panic edge(s), each under one of the two rejecting conditions" % ne_,
